@@ -13,4 +13,4 @@ CONSTANTS
 INVARIANTS
   FullWeekCoversAll EmptyCoversNone FullDayExactlyItsDay EmptyDayExactlyNotItsDay
   HalfOpenOnWallClock RowsConsistent NonVacuousTable
-  VerdictsSound RoundTripIdentity
+  VerdictsSound RoundTripIdentity AllOrNothing
